@@ -234,13 +234,14 @@ def run_channel(chk, tier):
         chk.note("fine model stale for channel: %s (falling back to exhaustive real schedules "
                  "with ChannelAbs as the only oracle)" % s)
     slots = consts["SLOTS"]
-    if pid in ("C08", "C06"):
+    if pid in ("C08", "C06", "C07"):
         import inductive
         inductive.tlaps_proof(
             chk, "ChannelProof.tla",
-            "Spec => []NoPanic: with any number of sends and receives in flight (on any threads, nested in handlers "
-            "or not) and any number of slots, an enqueue always finds room, a receiver never finds an empty cell, a "
-            "sender never overwrites a full one (index ownership level)",
+            "Spec => [](NoPanic /\\ OneFate /\\ NothingInvented): with any number of sends and receives in flight (on any "
+            "threads, nested in handlers or not) and any number of slots, an enqueue always finds room, a receiver never "
+            "finds an empty cell, a sender never overwrites a full one, and no value is ever in two places or handed "
+            "out twice (index ownership level)",
             applies=not stale, why_not="; ".join(stale))
     if not stale:
         for what, cfg, tmo in mc_configs(tier, slots):
